@@ -37,6 +37,7 @@ type World struct {
 	xsorts   map[Sort]bool
 	boxSorts map[Sort]bool
 	regContracts map[*ssa.Function]*FuncContract
+	stableMemo   map[*ssa.Global]string
 	tags     map[string]int
 	tagTypes []types.Type
 	strIDs   map[string]int
@@ -61,6 +62,7 @@ func LoadWorld(repo string) (*World, error) {
 		tpkgs: map[string]*types.Package{}, byName: map[string][]*types.Package{},
 		heapSort: map[string]Sort{}, boxSorts: map[Sort]bool{}, heapGoT: map[string]types.Type{}, xsorts: map[Sort]bool{},
 		tags: map[string]int{}, strIDs: map[string]int{}, specSigs: map[string]*specSig{}}
+	strLitHook = w.strLitOf
 	env := append(os.Environ(), "GOFLAGS=-mod=mod", "GOPROXY=off", "GOSUMDB=off", "GOTOOLCHAIN=local", "CGO_ENABLED=0")
 	cfg := &packages.Config{Mode: packages.LoadAllSyntax, Dir: repo, BuildFlags: []string{"-tags=verif"}, Env: env}
 	pats := []string{".", "./rules", "./filterutil", "./filterlist", "./lookup", "./proxy"}
@@ -605,6 +607,14 @@ func (w *World) findFunc(key string) *ssa.Function {
 		return fn
 	}
 	var found *ssa.Function
+	if strings.HasPrefix(rel, "init#") {
+		for _, f := range w.explicitInits(pkgPath) {
+			if f.Name() == rel {
+				return f
+			}
+		}
+		return nil
+	}
 	var visit func(fn *ssa.Function)
 	visit = func(fn *ssa.Function) {
 		if fn == nil || found != nil {
